@@ -37,6 +37,18 @@ def rot_like(rng, quality):
         return V
     if k < 0.4:
         return U * (1 + 10 ** rng.uniform(-3, 0))
+    if k < 0.6:
+        # unit-length columns (or rows) that are not orthogonal: one of them tilted towards another by 1e-3 .. 1 rad.  U'U has ones on the diagonal and
+        # sin(eps) off it, the determinant is cos(eps) = 1 - eps^2/2: only the off-diagonal test can see the small ones
+        eps = 10 ** rng.uniform(-3, 0) * (1.05 if rng.random() < 0.5 else 1.0) + 5e-5
+        i, j = rng.sample(range(3), 2)
+        V = U.copy()
+        V[:, i] = math.cos(eps) * U[:, i] + math.sin(eps) * U[:, j]
+        return V if rng.random() < 0.5 else V.T
+    if k < 0.7:
+        V = U.copy()                      # a single element off by 1e-3 .. 1
+        V[rng.randrange(3), rng.randrange(3)] += rng.choice([-1, 1]) * 10 ** rng.uniform(-3, 0)
+        return V
     E = np.array([[rng.uniform(-1, 1) for _ in range(3)] for _ in range(3)])
     E /= np.max(np.abs(E))
     return U + E * 10 ** rng.uniform(-3, 0)
